@@ -13,7 +13,10 @@ ENTRY = dict(
          "every generation; post-handshake messages while the LOCAL send side is broken (4 ways: expired write deadline, transport "
          "write error, transport write blocking then timing out, half-closed socket): the uTLS-server peer sends "
          "KeyUpdate(update_requested), data, an extra NewSessionTicket, data, KeyUpdate(requested), data, KeyUpdate, data - the "
-         "client must read exactly those bytes or end with the transport error, never a locally raised TLS alert; zero-length application data records interleaved with data in three shapes (random runs up to 24, > 40 "
+         "client must read exactly those bytes or end with the transport error, never a locally raised TLS alert; transport segmentation x application read sizes: data record(s) followed directly by close_notify, served "
+         "coalesced / split at random points / byte by byte / at record boundaries, read with buffers of 1, 2-10, < record, > record, "
+         "mixed, through Conn.Read and UConn.Read (forged streams per (kind, MAC size, version) at TLS 1.0-1.2; live TLS 1.2 GCM/CBC "
+         "and TLS 1.3 with the uTLS server, both directions): exactly the bytes sent, then io.EOF; zero-length application data records interleaved with data in three shapes (random runs up to 24, > 40 "
          "in total; one empty record before EACH of ~55 data records; pairs), read by UConn.Read. Tampering on live sessions: bit flip in body / first header / dropped byte (3 per pair, thorough 12), TLS "
          "1.3 record truncated to 0,1,15..18,40 bytes (thorough 0..63). Record level on forged connections (fresh receiver per "
          "experiment, UConn.Read, panic = failure) for EVERY suite of the table incl. the weak CBC suites x versions 1.0-1.2: the first "
